@@ -69,7 +69,7 @@ def encode(ex, v, depth=0):
         fields = {}
         for k, x in v.fields.items():
             if k in ('_ctx', 'rng'):
-                fields[k] = None if x is None else {'$cls': x.cls.name if isinstance(x, SObj) else type(x).__name__}
+                fields[k] = None if x is None else {'$cls': '*'}      # identity of opaque collaborators is not compared
             else:
                 fields[k] = encode(ex, x, depth + 1)
         return {'$obj': v.cls.name, 'fields': fields}
